@@ -214,8 +214,10 @@ def run_prim(ctx, R, tr):
                             R.free(pb)
                     vs.append(("bit%d,%s" % (bit, lab), f))
             prim_case(prim, "digits=%d" % nd, nd, vs)
-        # dv_cmp_sec (digits) and util_cmp_sec (bytes): data only
-        for prim, ln in (("dv_cmp_sec", nd), ("util_cmp_sec", nb)):
+        # dv_cmp_sec (digits) and util_cmp_sec (bytes, every length - not only whole digits): data only
+        for prim, ln in [("dv_cmp_sec", nd)] + [("util_cmp_sec", nb + j) for j in range(DB)]:
+            if prim == "util_cmp_sec":
+                pats = patterns(ln)
             vs = []
             for lab, a, b in pats:
                 def f(a=a, b=b, prim=prim, ln=ln):
@@ -231,6 +233,7 @@ def run_prim(ctx, R, tr):
                         R.free(pb)
                 vs.append((lab, f))
             prim_case(prim, "len=%d" % ln, ln, vs)
+        pats = patterns(nb)
         # control: the variable-time comparison must show variation for nd >= 2
         if nd >= 2:
             vs = []
@@ -290,6 +293,29 @@ GTV = ("fp12_mul", "fp12_sqr", "fp12_inv", "fp12_frb", "fp12_copy_sec", "fp12_co
        "dv_copy_sec", "dv_swap_sec")
 
 
+def length_groups(rng, L, order, quick):
+    """groups of scalars of EQUAL bit length b < L: within a group the group-level trace must not vary.
+    Lengths: small ones, around L/2, just below L, the lengths at which k + n or k + 2n change their bit
+    length (the padding tricks of the ladders), and a random sample of the rest (all lengths when thorough)."""
+    lens = set([1, 2, 3, 8, 63, 64, 65, L // 4, L // 2 - 1, L // 2, L // 2 + 1, L - 65, L - 64, L - 2, L - 1])
+    if order is not None:
+        for d in (abs((1 << L) - order), abs(order - (1 << (L - 1))), abs((1 << (L + 1)) - 2 * order),
+                  abs((1 << L) - 2 * order) if 2 * order > (1 << L) else 0):
+            if d:
+                for e in (-1, 0, 1, 2):
+                    lens.add(d.bit_length() + e)
+    rest = [b for b in range(1, L) if b not in lens]
+    lens.update(rest if not quick else rng.sample(rest, min(len(rest), 12)))
+    out = []
+    for b in sorted(x for x in lens if 1 <= x < L):
+        lo, hi = 1 << (b - 1), (1 << b) - 1
+        vs = [("shorter:min", lo), ("shorter:max", hi)]
+        if b > 2:
+            vs += [("shorter:random", lo | rng.getrandbits(b - 1)), ("shorter:random", lo | rng.getrandbits(b - 1))]
+        out.append((b, vs))
+    return out
+
+
 def scalar_classes(rng, L, hi, n):
     """n scalars of exactly L bits (top bit set), all < hi when hi is given"""
     out = []
@@ -338,8 +364,16 @@ def run_reg(ctx, R, tr):
     controls_varying = 0
     controls_run = 0
 
-    def observe(label, pset, bodies, voc, fname, argf, scalars, control=False):
-        """one (routine, parameter set): all scalars must give one group-level trace"""
+    def observe(label, pset, bodies, voc, fname, argf, scalars, control=False, order=None, L=None):
+        """one (routine, parameter set): all scalars of one bit length must give one group-level trace"""
+        seen = observe1(label, pset, bodies, voc, fname, argf, scalars, control)
+        if order is not None and not control:
+            for b, vs in length_groups(rng, L, order, ctx.quick):
+                observe1(label, pset, bodies, voc, fname, argf, vs, False, record=False,
+                         suffix="|scalar<=%dbits" % R.DIG if b <= R.DIG else "|shorter-scalars")
+        return seen
+
+    def observe1(label, pset, bodies, voc, fname, argf, scalars, control=False, record=True, suffix=""):
         nonlocal controls_varying, controls_run
         tr.set_bodies(bodies)
         ref = None
@@ -361,7 +395,8 @@ def run_reg(ctx, R, tr):
                     ctx.ok()
                     continue
                 if len(seq) == 0:
-                    ctx.fail("%s|%s|empty-trace" % (label, pset), "no group-level event recorded: vocabulary/body mismatch")
+                    if record:
+                        ctx.fail("%s|%s|empty-trace" % (label, pset), "no group-level event recorded: vocabulary/body mismatch")
                     continue
                 if ref is None:
                     ref = (h, lab, v, seq)
@@ -372,7 +407,7 @@ def run_reg(ctx, R, tr):
                     ctx.ok()
                     a, b = ref[3], seq
                     j = next((i for i, (x, y) in enumerate(zip(a, b)) if x != y), min(len(a), len(b)))
-                    ctx.fail("%s|%s|trace-varies" % (label, pset),
+                    ctx.fail("%s|%s|trace-varies%s" % (label, pset, suffix),
                              {"reference": {"class": ref[1], "k": hx(ref[2]), "events": len(a)},
                               "this": {"class": lab, "k": hx(v), "events": len(b)},
                               "first_difference_at": j, "ref_around": list(a[max(0, j - 3):j + 4]),
@@ -385,7 +420,7 @@ def run_reg(ctx, R, tr):
             controls_run += 1
             if len(seen) > 1:
                 controls_varying += 1
-        elif ref is not None:
+        elif ref is not None and record:
             ctx.add("trace_lengths", 0)
             ctx.info.setdefault("group_level_trace_events", {})["%s|%s" % (label, pset)] = len(ref[3])
         return seen
@@ -414,7 +449,7 @@ def run_reg(ctx, R, tr):
         for fn in ("ep_mul_monty", "ep_mul_lwreg"):
             unit += 1
             if ctx.mine(unit) and R.has(fn):
-                observe(fn, name, ("ep_mul_",), EPV, fn, lambda v: (r, g, kbn(v)), scalar_classes(rng, L, n, nsc))
+                observe(fn, name, ("ep_mul_",), EPV, fn, lambda v: (r, g, kbn(v)), scalar_classes(rng, L, n, nsc), order=n, L=L)
         unit += 1
         if ctx.mine(unit):
             observe("ep_mul_lwnaf", name, ("ep_mul_",), EPV, "ep_mul_lwnaf", lambda v: (r, g, kbn(v)),
@@ -427,22 +462,22 @@ def run_reg(ctx, R, tr):
             for fn in ("ep2_mul_monty", "ep2_mul_lwreg"):
                 unit += 1
                 if ctx.mine(unit) and R.has(fn):
-                    observe(fn, name, ("ep2_mul_",), EP2V, fn, lambda v: (r2, q, kbn(v)), scalar_classes(rng, L, n, nsc))
+                    observe(fn, name, ("ep2_mul_",), EP2V, fn, lambda v: (r2, q, kbn(v)), scalar_classes(rng, L, n, nsc), order=n, L=L)
             e = R.fpx_new(12)
             o = R.fpx_new(12)
             R.call("gt_get_gen", e)
             unit += 1
             if ctx.mine(unit):
                 observe("gt_exp_sec", name, ("gt_exp",), GTV, "gt_exp_sec", lambda v: (o, e, kbn(v)),
-                        scalar_classes(rng, L, n, nsc))
+                        scalar_classes(rng, L, n, nsc), order=n, L=L)
             unit += 1
             if ctx.mine(unit):
                 observe("g1_mul_sec", name, ("ep_mul_",), EPV, "g1_mul_sec", lambda v: (r, g, kbn(v)),
-                        scalar_classes(rng, L, n, max(10, nsc // 2)))
+                        scalar_classes(rng, L, n, max(10, nsc // 2)), order=n, L=L)
             unit += 1
             if ctx.mine(unit):
                 observe("g2_mul_sec", name, ("ep2_mul_",), EP2V, "g2_mul_sec", lambda v: (r2, q, kbn(v)),
-                        scalar_classes(rng, L, n, max(10, nsc // 2)))
+                        scalar_classes(rng, L, n, max(10, nsc // 2)), order=n, L=L)
             for p_ in (q, r2, e, o):
                 R.free(p_)
         R.free(g)
@@ -462,7 +497,7 @@ def run_reg(ctx, R, tr):
             for fn in ("ed_mul_monty", "ed_mul_lwreg"):
                 unit += 1
                 if ctx.mine(unit) and R.has(fn):
-                    observe(fn, "ED25519", ("ed_mul_",), EDV, fn, lambda v: (r, g, kbn(v)), scalar_classes(rng, L, n, nsc))
+                    observe(fn, "ED25519", ("ed_mul_",), EDV, fn, lambda v: (r, g, kbn(v)), scalar_classes(rng, L, n, nsc), order=n, L=L)
     # ---- binary curves and fields, integer / field ladders (256-bit build only: the code is the same)
     if ctx.cfg == "trace256":
         for setter, nm in (("eb_param_set_any_plain", "B283"), ("eb_param_set_any_kbltz", "K283")):
@@ -481,7 +516,7 @@ def run_reg(ctx, R, tr):
             unit += 1
             if ctx.mine(unit):
                 observe("eb_mul_lodah", nm, ("eb_mul_",), EBV, "eb_mul_lodah", lambda v: (r, g, kbn(v)),
-                        scalar_classes(rng, L, n, nsc))
+                        scalar_classes(rng, L, n, nsc), order=n, L=L)
         # fb_exp_monty
         fbsz = K["sizeof_fb_st"]
         fx = R.put((rng.getrandbits(K["RLC_FB_BITS"] - 3)).to_bytes(fbsz, "little"))
